@@ -17,7 +17,7 @@ RULE = ('Hypothesis-generated documents built from a heading tree: 0..10 heading
         '[preamble] + one per heading + metadata group; each title equals the generated title and each _note equals the exact source bytes between '
         'the end of the heading and the next heading (byte offsets computed by the generator). Oracle 2 (properly nested headings): '
         'html(doc) == html(import(export(doc))) for the complete document, and import∘export applied twice is a fixed point of html. '
-        'Non-trivial: >=2 headings with a nested one and a body containing an XML-reserved character; distinct by source.')
+        'Also: an engine whose metadata was queried and edited through the engine API must export the edited document; the last (ATX) heading line may end the source unterminated; titles include CriticMarkup divider look-alikes. Non-trivial: >=2 headings with a nested one and a body containing an XML-reserved character; distinct by source.')
 ASSUMPTIONS = ['bodies are block-closed (fences closed, no raw HTML blocks) and contain no heading-like line; titles are not the reserved names >>Preamble<< / >>Metadata<<',
                'the first line of a metadata-free document is never `key: value`-shaped',
                'round trip only for documents whose first heading is level 1 and where no level is skipped (as in the statement)']
